@@ -427,6 +427,10 @@ func (p *GoogleProvider) RefreshAccessToken(refreshToken string) (token string, 
 	if err != nil {
 		return
 	}
+	if response.AccessToken == "" {
+		err = errors.New("missing access token in refresh response")
+		return
+	}
 
 	token = response.AccessToken
 	expires = time.Duration(response.ExpiresIn) * time.Second
